@@ -59,9 +59,49 @@ structure Summary where
   runs : List Nat
   exited : Nat
   barrierTimeout : Bool
+  /-- a settle point of the script that waits until every panic begun so far has been answered by a replacement
+  worker was not satisfied in time ("the pool returns to N usable workers") -/
+  settleTimeout : Bool := false
 
-/-- `tasks` executes in the script; `workers` = N if the script started the pool, else 0. -/
+/-- `tasks` executes in the script; `workers` = N for every `start` in the script (each start spawns N workers, and the
+workers of every run have to exit), 0 if the script never started the pool. -/
 def Summary.ok (tasks workers : Nat) (s : Summary) : Bool :=
   !s.wedged && s.runs.length == tasks && s.runs.all (· == 1) && s.exited == workers && !s.barrierTimeout
+    && !s.settleTimeout
+
+/-- The clause of the property a summary fails first (for the report). -/
+def Summary.failed (tasks workers : Nat) (s : Summary) : String :=
+  if s.wedged then "wedged"
+  else if s.runs.length != tasks || !s.runs.all (· == 1) then "task-not-run-exactly-once"
+  else if s.exited != workers then "workers-not-all-exited"
+  else if s.barrierTimeout then "N-tasks-could-not-run-at-once"
+  else if s.settleTimeout then "panic-not-recovered"
+  else ""
+
+/-! ### Scripts that start the pool more than once
+
+`Model/Pool.lean` describes ONE run (start … stop/drop). A script with several starts is judged on what the property
+says about it directly, on counts that can be read off the implementation's event log without knowing to which run a
+worker id belongs (ids are reused by every run). -/
+
+structure LogCounts where
+  /-- ids of the tasks whose body was entered, in log order -/
+  bodies : List Nat
+  /-- tasks that began to unwind -/
+  unwound : Nat
+  /-- panic markers sent to a recovery thread -/
+  markers : Nat
+  /-- replacement workers spawned -/
+  respawns : Nat
+  /-- workers that left their loop -/
+  exits : Nat
+  starts : Nat
+
+/-- Every task body entered exactly once (the log says the same as the per-task counters), each of the `panics`
+panicking tasks unwound one worker, which reported itself and was replaced exactly once, and N workers per start have
+exited. -/
+def LogCounts.ok (n tasks panics : Nat) (l : LogCounts) : Bool :=
+  l.bodies.length == tasks && l.bodies.mergeSort (fun a b => decide (a ≤ b)) == List.range tasks
+    && l.unwound == panics && l.markers == panics && l.respawns == panics && l.exits == n * l.starts
 
 end Humphrey.PoolSpec
